@@ -618,9 +618,9 @@ class R:
                 g.emit("alias64 %s %s" % (y, " ".join(sorted(set(pn)))))
                 self.probe(y, pn, homes, anchors)
         # ParOr chunking: many buckets, key ranges anywhere incl. the very top of the key space, span below and above 4x workers
-        for it in range(max(6, n)):
-            nb = r.choice([1, 2, 5, 9, 17, 18, 33, 40])
-            top = r.choice([0xFFFFFFFF, 0xFFFFFFFF, 0xFFFFFFFE, nb + 3, 0x80000000 + nb, r.randrange(nb, 0xFFFFFFFF)])
+        for it in range(max(24, 3 * n)):
+            nb = r.choice([1, 2, 5, 9, 17, 18, 33, 40]) if it else 1
+            top = r.choice([0xFFFFFFFF, 0xFFFFFFFF, 0xFFFFFFFE, nb + 3, 0x80000000 + nb, r.randrange(nb, 0xFFFFFFFF)]) if it else 0xFFFFFFFF
             ks = list(range(top - nb + 1, top + 1))
             if r.random() < 0.4:
                 ks = [k for k in ks if r.random() < 0.7] or ks[:2]
